@@ -497,7 +497,9 @@ impl Profile {
                     // one limit price per side keeps the branching in check: the middle one
                     let p = self.prices[self.prices.len() / 2];
                     v.push(Op::Create { bid, price: Some(p), vol: self.limit_vols[self.limit_vols.len() - 1] });
-                    v.push(Op::Create { bid, price: None, vol: self.market_vols[self.market_vols.len() - 1] });
+                    if let Some(mv) = self.market_vols.last() {
+                        v.push(Op::Create { bid, price: None, vol: *mv });
+                    }
                 }
             }
             for id in first_id..n {
